@@ -338,3 +338,38 @@ func TestF14_RefusedRotationRegistersNothing(t *testing.T) {
 		t.Fatalf("a refused rotation changed the set of node records: %v -> %v", before, after)
 	}
 }
+
+// removeRecorder records the messages handed to Storage.Remove.
+type removeRecorder struct {
+	nodeenrollment.Storage
+	removed []nodeenrollment.MessageWithId
+}
+
+func (r *removeRecorder) Remove(c context.Context, m nodeenrollment.MessageWithId) error {
+	r.removed = append(r.removed, proto.Clone(m).(nodeenrollment.MessageWithId))
+	return r.Storage.Remove(c, m)
+}
+
+// F15 (fixed by 092530f): when an activation token was used, the entry that had just been loaded -
+// creation time unwrapped - was handed to Storage.Remove (and removed under the id field of the
+// stored bytes rather than the id derived from the presented token).
+func TestF15_UsedTokenRemovedByIdOnly(t *testing.T) {
+	w := wrapper(t, "storage")
+	inner := server(t, nodeenrollment.WithStorageWrapper(w))
+	st := &removeRecorder{Storage: inner}
+	_, tok, err := registration.CreateServerLedActivationToken(ctx, st, &types.ServerLedRegistrationRequest{}, nodeenrollment.WithStorageWrapper(w))
+	if err != nil {
+		t.Fatal(err)
+	}
+	nd, _ := inmem.New(ctx)
+	c, _ := types.NewNodeCredentials(ctx, nd, nodeenrollment.WithActivationToken(tok))
+	req, _ := c.CreateFetchNodeCredentialsRequest(ctx, nodeenrollment.WithActivationToken(tok))
+	if _, err := registration.FetchNodeCredentials(ctx, st, req, nodeenrollment.WithStorageWrapper(w)); err != nil {
+		t.Fatal(err)
+	}
+	for _, m := range st.removed {
+		if tk, ok := m.(*types.ServerLedActivationToken); ok && (tk.CreationTime != nil || len(tk.CreationTimeMarshaled) > 0) {
+			t.Fatalf("the message handed to Storage.Remove carries the token's creation time (%v)", tk.CreationTime)
+		}
+	}
+}
